@@ -14,6 +14,11 @@ def run(tier, replay=None):
                     "%s-%s-b%d-cap%d" % (cxx.cell_name(cell), schema, bsel, cap), cell,
                     ["SBEPP_ENABLE_ASSERTS_WITH_HANDLER", "SCHEMA=" + schema, "BIG=%d" % big, "CAP=%d" % cap,
                      "BYTESEL=%d" % bsel]))
+    # release configuration (SBEPP_DISABLE_ASSERTS): the operations themselves must not depend on the checks being compiled in
+    for cell in (cells[:1] if tier == "quick" else cells):
+        for schema, big in (("lib_le", 0),) if tier == "quick" else (("lib_le", 0), ("lib_be", 1)):
+            vs.append(libcheck.Variant("rel-%s-%s-b0-cap%d" % (cxx.cell_name(cell), schema, cap), cell,
+                                       ["SBEPP_DISABLE_ASSERTS", "SCHEMA=" + schema, "BIG=%d" % big, "CAP=%d" % cap, "BYTESEL=0"]))
     # constant evaluation (C++20 and later): the closed state space with capacity 5 inside static_asserts
     from ..evidence import Report
     rep = Report("C13", tier, "model_checking")
